@@ -773,7 +773,11 @@ def _g_instance(draw, depth=0, with_path=None, strings=None, allow_nan=True,
         keep = draw(_I10) < 3 and not any(
             pr['embedded_object'] or pr['is_array'] or pr['value'] is None
             or pr['type'] == 'reference' for pr in props)
-        for n, kt, v in p['keys']:
+        for i, (n, kt, v) in enumerate(p['keys']):
+            if keep and i == 0 and props:
+                # force the collision (in another lexical case) instead of
+                # waiting for the name pools to produce one
+                n = props[0]['name'].swapcase()
             while n.lower() in pnames and not keep:
                 n = 'k_' + n
             pnames.add(n.lower())
